@@ -11,7 +11,8 @@
    correspondence check, not by proof. *)
 From Coq Require Import ZArith List Bool String PrimFloat.
 From PV Require Import Units.Tables Units.SIString Units.Dispatch Units.TableProofs Units.DispatchProofs
-                       Units.Gen_Tables Units.GenFacts16 Units.SIStringProofs.
+                       Units.SIStringProofs.
+From PV Require Import Units.Gen_Tables Units.GenFacts16.
 Import ListNotations.
 Local Open Scope string_scope.
 
